@@ -1,0 +1,12 @@
+//go:build verif
+
+package cmd
+
+import "context"
+
+// VerifWithBackend returns ctx carrying the given Backend, so that the verification harness can run
+// the cobra commands built by MakeRoot in-process against in-memory files, getter and clock (the
+// package's own tests do the same through the unexported context key).
+func VerifWithBackend(ctx context.Context, b *Backend) context.Context {
+	return context.WithValue(ctx, backendKey, b)
+}
